@@ -63,16 +63,22 @@ def build(repo, spec_dir, canary=False):
     b.trusted += ['regex-syntax %s builds \\d, \\s, \\w from perl_decimal/perl_space/perl_word tables (read, not proved)' % ver]
     return b
 def witness(repo):
-    """concrete scalar values on which a grex table and the regex crate's differ (z3 model of the same disjunctions)."""
-    import z3
+    """concrete scalar values on which a grex table and the regex crate's differ: a model of the same disjunctions, from the z3 binary (SMT-LIB 2)."""
+    import subprocess, tempfile
     data, _ = load(repo)
     out = {}
     for key, (g, r) in data.items():
-        c = z3.Int('c')
-        mem = lambda rs: z3.Or([z3.And(cp(a) <= c, c <= cp(bb)) for a, bb in rs])
-        s = z3.Solver()
-        s.add(c >= 0, c <= 0x10FFFF, z3.Or(c < 0xD800, c > 0xDFFF), mem(g) != mem(r))
-        if s.check() == z3.sat: out[key] = s.model()[c].as_long()
+        mem = lambda rs: '(or false %s)' % ' '.join('(and (<= %d c) (<= c %d))' % (cp(a), cp(bb)) for a, bb in rs)
+        smt = '(declare-const c Int)\n(assert (and (<= 0 c) (<= c 1114111) (or (< c 55296) (> c 57343))))\n(assert (distinct %s %s))\n(check-sat)\n(get-value (c))\n' % (mem(g), mem(r))
+        with tempfile.NamedTemporaryFile('w', suffix='.smt2', delete=False) as f:
+            f.write(smt); path = f.name
+        try:
+            p = subprocess.run(['z3', path], capture_output=True, text=True, timeout=120)
+            if p.stdout.startswith('sat'):
+                m = re.search(r'\(\(c (\d+)\)\)', p.stdout)
+                if m: out[key] = int(m.group(1))
+        finally:
+            os.unlink(path)
     return out
 
 def replay_witness(repo, label):
